@@ -132,6 +132,19 @@ Theorem C12_settled_run : forall es i i',
     (is_faulty (p_state pp') = true -> is_faulty (p_state pp) = true).
 Proof. exact settled_run. Qed.
 
+(** C12_settled_reach_master: in a settled instance a port is MASTER for good once
+    a BMCA run finds it neither LISTENING nor FAULTY, or once its announce receipt
+    timer fires while it is not FAULTY - whatever silent events come before and
+    after (any number of them). *)
+Theorem C12_settled_reach_master : forall es1 e es2 i i' n,
+  inst_inv i -> Forall event_valid (es1 ++ e :: es2) -> forallb silent_event (es1 ++ e :: es2) = true -> settled i ->
+  run_state i (es1 ++ e :: es2) = Some i' ->
+  (forall i1 pp1, run_state i es1 = Some i1 -> nth_error (i_ports i1) n = Some pp1 ->
+     (e = EvBmca /\ is_faulty (p_state pp1) = false /\ is_listening (p_state pp1) = false) \/
+     (e = EvAnnounceReceiptTimer n /\ is_faulty (p_state pp1) = false)) ->
+  forall pp', nth_error (i_ports i') n = Some pp' -> p_state pp' = PMaster.
+Proof. exact settled_reach_master. Qed.
+
 (** The premises are satisfiable: a port that became SLAVE (9) of a master and
     then hears nothing more is MASTER (6) after a silent tail with five BMCA runs
     (four announce intervals), evaluated in the kernel. *)
@@ -148,3 +161,77 @@ Example C12_silence_nonvacuous :
   | Panic _ => false
   end = true.
 Proof. exact silence_example. Qed.
+
+(** * Cadence, in safety form (Port/CadenceC12.v).
+    After the announce timer of a MASTER port has fired at host time [now12 s], and
+    for as long as the port stays MASTER and neither that timer nor the port's
+    announce receipt timer fires (any other calls, on any port, BMCA runs and ticks
+    included), nothing touches that timer: its deadline in the host's book is
+    exactly that time + the configured announce interval.  A host that fires it
+    when due (to within the oracle's 2 ns) emits the next Announce one configured
+    interval after the previous one; the same for Sync.  ("Emits Announce and Sync
+    at their configured intervals": what remains trace-only is that an obedient
+    host reaches the firing at all, i.e. the arithmetic of its schedule.) *)
+From SV Require Import Port.CadenceC12 Port.CadenceEx.
+Theorem C12_announce_gap : forall c i s p q mid i1 o1 s1 s2 sn2 pp,
+  inst_inv i -> Forall event_valid (EvAnnounceTimer p q :: mid) ->
+  book_wf (tms s) -> (p < length (tms s))%nat ->
+  nth_error (i_ports i) p = Some pp -> p_state pp = PMaster ->
+  step i (EvAnnounceTimer p q) = Ok (i1, o1) ->
+  step_C12 c s (snapshot_of i) (EvAnnounceTimer p q) o1 (snapshot_of i1) = Some s1 ->
+  state_of (snapshot_of i1) p = 6 ->
+  walk12 c s1 (snapshot_of i1) mid (run i1 mid) = Some (s2, sn2) ->
+  forallb (fun e => negb (own_timer p 0 e)) mid = true -> stays_master p (run i1 mid) = true ->
+  obedient_firing s2 p 0 = true ->
+  Z.abs (now12 s2 - now12 s - interval_ns (pc_log_announce (p_config pp))) <= 2.
+Proof. exact announce_gap. Qed.
+Theorem C12_sync_gap : forall c i s p mid i1 o1 s1 s2 sn2 pp,
+  inst_inv i -> Forall event_valid (EvSyncTimer p :: mid) ->
+  book_wf (tms s) -> (p < length (tms s))%nat ->
+  nth_error (i_ports i) p = Some pp -> p_state pp = PMaster ->
+  step i (EvSyncTimer p) = Ok (i1, o1) ->
+  step_C12 c s (snapshot_of i) (EvSyncTimer p) o1 (snapshot_of i1) = Some s1 ->
+  state_of (snapshot_of i1) p = 6 ->
+  walk12 c s1 (snapshot_of i1) mid (run i1 mid) = Some (s2, sn2) ->
+  forallb (fun e => negb (own_timer p 1 e)) mid = true -> stays_master p (run i1 mid) = true ->
+  obedient_firing s2 p 1 = true ->
+  Z.abs (now12 s2 - now12 s - interval_ns (pc_log_sync (p_config pp))) <= 2.
+Proof. exact sync_gap. Qed.
+Example C12_cadence_nonvacuous :
+  match walk12 cad_case (init12 cad_case) (init_snap cad_case) (pc_events cad_case) (pc_trace cad_case) with
+  | Some (s2, sn2) =>
+      sn_states sn2 = [6] /\ deadline (tms s2) 0 0 = Some 1000000000 /\ now12 s2 = 1000000000 /\ obedient_firing s2 0 0 = true
+  | None => False
+  end.
+Proof. exact cadence_example. Qed.
+
+(** The delay request timer is re-armed with a duration in [0, 2 * interval] for
+    every Open01 draw u = (2k+1)/2^53, k a 52-bit integer, and every log interval
+    the configuration admits: consecutive Delay_Reqs of an obedient host are at
+    most two intervals (+ 2 ns) apart. *)
+From SV Require Import Port.DreqBound.
+Theorem C12_delay_request_duration_bound : forall log k, -7 <= log <= 7 -> 0 <= k < 2 ^ 52 ->
+  0 <= delay_req_duration_ns log k <= 2 * interval_ns log.
+Proof. exact dreq_duration_bound. Qed.
+
+(** Cadence of Delay_Req in safety form (Port/DreqCadence.v): after the delay
+    request timer of an end-to-end SLAVE port fired at host time [now12 s], and
+    for as long as the port stays slave of the same master and that timer does
+    not fire, nothing touches that timer; an obedient next firing comes at most
+    two delay request intervals (+ 2 ns) later - the bound [dreq_cadence_ok]
+    tests on traces.  (Draws of the port's random generator: 52-bit integers.) *)
+From SV Require Import Port.DreqCadence.
+Theorem C12_delay_request_gap : forall c i s p mid i1 o1 s1 s2 sn2 pp st log,
+  reach_inv c i -> Forall event_valid (EvDelayReqTimer p :: mid) ->
+  book_wf (tms s) -> (p < length (tms s))%nat ->
+  nth_error (i_ports i) p = Some pp -> p_state pp = PSlave st -> pc_delay (p_config pp) = E2E log -> -7 <= log <= 7 ->
+  Forall (fun k => 0 <= k < 2 ^ 52) (p_rng pp) ->
+  step i (EvDelayReqTimer p) = Ok (i1, o1) ->
+  step_C12 c s (snapshot_of i) (EvDelayReqTimer p) o1 (snapshot_of i1) = Some s1 ->
+  state_of (snapshot_of i1) p = 9 ->
+  walk12 c s1 (snapshot_of i1) mid (run i1 mid) = Some (s2, sn2) ->
+  forallb (fun e => negb (own_timer2 p e)) mid = true ->
+  stays_slave p (pd_parent (ds_parent (i_ds i1))) (run i1 mid) = true ->
+  obedient_firing s2 p 2 = true ->
+  now12 s2 - now12 s <= 2 * interval_ns log + 2.
+Proof. exact dreq_gap. Qed.
